@@ -72,6 +72,34 @@ proof!(k16_parse_int_nonstr, 4, {
     forget(a); forget(a2); forget(a3); forget(a4);
 });
 
+//@ k16_parse_int_float props=C18 tier=quick expect=pass fns=parse_int :: parse_int on a Float (any finite f64 with |v| < 2^53): the documented TRUNCATION toward zero - the result r satisfies |r| <= |v| and |v - r| < 1 (so -1.5 -> -1, 1.5 -> 1, -0.5 -> 0), exactly v for integral v
+proof!(k16_parse_int_float, 4, {
+    let v: f64 = kani::any();
+    kani::assume(v.is_finite() && v > -9007199254740992.0 && v < 9007199254740992.0);
+    let a = one(PathAwareValue::Float((p(), v)));
+    let r = parse_int(&a);
+    match &r {
+        Ok(out) => {
+            assert!(out.len() == 1);
+            match &out[0] {
+                Some(PathAwareValue::Int((_, x))) => {
+                    let xf = *x as f64; // exact: |x| < 2^53
+                    if v >= 0.0 {
+                        assert!(xf <= v && v - xf < 1.0);
+                    } else {
+                        assert!(xf >= v && xf - v < 1.0);
+                    }
+                }
+                _ => assert!(false),
+            }
+        }
+        Err(_) => assert!(false),
+    }
+    kani::cover!(v < -0.25 && v > -0.75);
+    forget(r);
+    forget(a);
+});
+
 //@ k16_parse_char_int props=C18,C08 tier=quick expect=pass fns=parse_char :: parse_char on Int (any i64): the digit character for 0..9, an error otherwise - never a wrong value, never a panic
 proof!(k16_parse_char_int, 4, {
     let i: i64 = kani::any();
